@@ -122,6 +122,7 @@ def rand_read(it, st, args, fname):
 I.reg('crypto/rand.Read', rand_read)
 I.reg('math/rand.Read', rand_read)
 I.reg('(*crypto/rand.reader).Read', rand_read)
+I.synth[('$randreader', 'Read')] = lambda it, st, args: rand_read(it, st, args[1:], 'crypto/rand.Read')
 
 
 # ------------------------------------------------------------------ string / byte leaves behind the stop list
@@ -648,3 +649,58 @@ def json_unmarshal(it, st, args, fname):
             raise Unsupported('encoding/json.Unmarshal of a string with escapes')
     it.store(st, v, Str(list(vals[1:-1])), 'json.Unmarshal:store')
     return ret(st, None)
+
+
+# ------------------------------------------------------------------ context with cancellation (no time passing)
+# WithTimeout / WithDeadline / WithCancel give a child context with its own Done channel and a cancel
+# function.  The model has no passing of time: a deadline is never reached inside one explored step, so
+# Done() becomes ready only through cancel().  (Stated in the evidence as an assumption.)
+
+def _new_ctx(it, st, parent):
+    ch = it.new_obj(st, ('CH', 0, (), False), ('CH', 'struct{}'))
+    oid = it.new_obj(st, ('CTX', ch, False), ('OPAQUE',))
+    it.ctx.assumptions.add('context deadlines are never reached within an explored step (no passing of time): Done() fires only on cancel()')
+    return Iface('$ctx', Ptr(oid)), FuncVal(f'$ctxcancel:{oid}')
+
+
+@I.reg('context.WithTimeout')
+@I.reg('context.WithDeadline')
+@I.reg('context.WithCancel')
+def ctx_with(it, st, args, fname):
+    c, cancel = _new_ctx(it, st, args[0])
+    return ret(st, (c, cancel))
+
+
+@I.regp('$ctxcancel:')
+def ctx_cancel(it, st, args, fname):
+    oid = int(fname.split(':', 1)[1])
+    _, ch, cancelled = st.heap[oid]
+    if not cancelled:
+        st.heap[oid] = ('CTX', ch, True)
+        _, cp, items, closed = st.heap[ch]
+        st.heap[ch] = ('CH', cp, items, True)
+    return ret(st)
+
+
+def ctx_done(it, st, args):
+    c = args[0]
+    if c is None:
+        return ret(st, None)          # Background: a nil channel, never ready
+    return ret(st, Ptr(st.heap[c.obj][1]))
+
+
+def ctx_err(it, st, args):
+    c = args[0]
+    if c is None or not st.heap[c.obj][2]:
+        return ret(st, None)
+    oid = it.new_obj(st, ('FMTERR', Str(list(b'context canceled')), ()), ('OPAQUE',))
+    return ret(st, Iface('$fmterr', Ptr(oid)))
+
+
+def ctx_value(it, st, args):
+    return ret(st, None)
+
+
+I.synth[('$ctx', 'Done')] = ctx_done
+I.synth[('$ctx', 'Err')] = ctx_err
+I.synth[('$ctx', 'Value')] = ctx_value
